@@ -225,7 +225,14 @@ class Engine:
             if 'serde_json' in ty: return None
             c=self.impl_index.get((trn,tyn,meth))
             if c and len(c)==1: return c[0]
-            if c and len(c)>1: raise Unsupported('ambiguous impl '+key)
+            if c and len(c)>1:
+                # several impls of a generic trait for one type (From<A>, From<B>, ...): select by the trait argument
+                m=re.match(r'^[A-Za-z_:]+<(.*)>$',tr or '')
+                if m:
+                    want=last_ident(m.group(1))
+                    sel=[b for b in c if b.params and last_ident(b.params[0][1])==want]
+                    if len(sel)==1: return sel[0]
+                raise Unsupported('ambiguous impl '+key)
             # generic parameter / dyn: dispatch on run-time type of the receiver
             if (re.match(r'^(dyn |impl )?[A-Z][A-Za-z0-9_]*$',ty) or ty.startswith('dyn ')) and argv and (tyn not in self.src.structs and tyn not in self.src.enums):
                 rt=self.type_of(argv[0])
